@@ -38,9 +38,12 @@ def setValueF (w : FW) (col : Nat) (v : In) : Outcome :=
   run noCall setValueProg [.name col, pvOfIn v, .fn .fromPy col, .fn .toPy col] [] setValue_nlocals setValue_nlists
     setValue_ndicts w
 
-/-- `self.set(**kw)` -/
-def setF (w : FW) (kw : PDict) : Outcome :=
-  run noCall setProg [.bool false] kw set_nlocals set_nlists set_ndicts w
+/-- `self.set(_suppress_set_sig, **kw)` with the property setters given by the call table `call` -/
+def setFWith (call : CallT) (sup : Bool) (w : FW) (kw : PDict) : Outcome :=
+  run call setProg [.bool sup] kw set_nlocals set_nlists set_ndicts w
+
+/-- `self.set(**kw)`, property setters = the hand model's trees (`propCall`) -/
+def setF (w : FW) (kw : PDict) : Outcome := setFWith propCall false w kw
 
 /-- `self.syncUpdate()` -/
 def syncUpdateF (w : FW) : Outcome :=
